@@ -803,6 +803,52 @@ def impl_gh(host, c):
     return _result(bert_e, resp)
 
 
+def webhook_busy_probe():
+    """Webhooks delivered while the worker is busy with, or has just finished, the very job they ask for.
+    Every webhook cell that enqueues a pull-request or commit job on an idle server is delivered again with (1) an
+    equal job as status['current job'], (2) an equal job in tasks_done, (3) both: the answer and the enqueued job must
+    be the same as on the idle server (duplicate suppression only looks at the WAITING jobs - C13).
+    Returns [(cell, state, idle result, busy result)] for every difference."""
+    from bert_e.job import CommitJob, PullRequestJob
+    diffs, n = [], 0
+    for cells, impl in ((bb_cells(), impl_bb), (gh_cells(), impl_gh)):
+        for c in cells:
+            if c.get('method') != 'POST' or c.get('payload') != 'ok':
+                continue
+            bert_e, _app = apps()[c['host']]
+            bert_e.status.pop('current job', None)
+            bert_e.tasks_done.clear()
+            put = []
+            orig_put = bert_e.put_job
+            bert_e.put_job = lambda j, _o=orig_put: (put.append(j), _o(j))[1]
+            try:
+                idle = impl(c['host'], c)
+            finally:
+                del bert_e.put_job
+            if len(put) != 1 or not isinstance(put[0], (PullRequestJob, CommitJob)):
+                continue
+            last = put[0]
+
+            def equal_job():
+                if isinstance(last, PullRequestJob):
+                    return PullRequestJob(bert_e=bert_e, pull_request=SimpleNamespace(id=last.pull_request.id))
+                return CommitJob(bert_e=bert_e, commit=last.commit)
+            for state in ('running', 'done', 'running+done'):
+                n += 1
+                try:
+                    if 'running' in state:
+                        bert_e.status['current job'] = equal_job()
+                    if 'done' in state:
+                        bert_e.tasks_done.appendleft(equal_job())
+                    busy = impl(c['host'], c)
+                finally:
+                    bert_e.status.pop('current job', None)
+                    bert_e.tasks_done.clear()
+                if busy != idle:
+                    diffs.append((dict(c), state, idle, busy))
+    return n, diffs
+
+
 def impl_oauth(c):
     import flask
     from bert_e.server import auth
@@ -1270,6 +1316,14 @@ def run(ctx, cells=None):
         else:
             cells = [_norm(c) for c in cells]
         _run_cells(ctx, facts, known, cells)
+        # the same webhooks while the worker is busy with / has finished an equal job: nothing may change
+        n, diffs = webhook_busy_probe()
+        ctx.evaluations += n
+        ctx.count('webhook_busy_probe', n)
+        for c, state, idle, busy in diffs[:20]:
+            ctx.mismatch({'cell': {k: c[k] for k in c if k != 'creds'}, 'server_state': 'equal job ' + state},
+                         {'status': busy[0], 'enqueued': busy[1]}, {'status': idle[0], 'enqueued': idle[1]},
+                         'webhook view: the answer depends on the jobs running / done')
     finally:
         cleanup()
 
